@@ -134,6 +134,21 @@ def run(tier):
     rep.rule('R16.status', "'all complete' is recomputed as: no valid entry is incomplete (for-all over indices 0..15)", floor=4)
     rep.rule('R16.query', "'empty' <=> count == 0; 'all complete' returns the recomputed flag", floor=2)
     rep.rule('R16.expiry', 'tick: a valid entry is dropped iff now > last activity + 60 s, count-1 then, flag recomputed afterwards', floor=3)
+    decide(rep, prog, cx)
+    return finish(rep, 'other',
+                  'Per-operation inductive ingredients of the table invariant (count = number of valid entries, unique key, all-complete flag = for-all) decided by abstract '
+                  'interpretation of the real API on a fully symbolic 16-entry table with every loop summarised by one symbolic index: exact count deltas paired with valid '
+                  'flips, lookup-before-insert with identical key, free-slot-only insertion, untouched full table, single invalidation per remove, wipe, recomputation as a '
+                  'for-all, 60 s expiry. The step-by-step equivalence with a dictionary model over arbitrary histories follows by induction and is not itself enumerated; '
+                  'callers outside the parsed units that poke entry->complete directly (Darwin) are not covered.',
+                  'abstract interpretation with symbolic-index loop summaries; pairing / who-may-write rules', exhaustive=False)
+
+
+def decide(rep, prog, cx=None):
+    """All table obligations; `rep` may be a RuleView of another property's report (C12 relies on the table telling the truth)."""
+    if cx is None:
+        cx = Ctx(prog)
+    fnf = 'lltdResponder/lltdAutomata.c'
     rep.check(cx.cap == oracle.SESSION_TABLE_CAP, 'R16.add', 'capacity', 'table capacity is %s entries, documented %d' % (cx.cap, oracle.SESSION_TABLE_CAP), file='lltdResponder/lltdAutomata.h')
     tp, mp, u16 = cx.ty('session_table *'), cx.ty('const uint8_t *'), cx.ty('unsigned short')
     T0, M0 = ('ptr', 'T', ZERO), ('ptr', 'MAC', ZERO)
@@ -331,13 +346,6 @@ def run(tier):
     # ---------------- expiry in the tick
     expiry(rep, cx)
     rep.analysed.update({'capacity': cx.cap, 'entry_size': cx.esz, 'add_outcomes': kinds})
-    return finish(rep, 'other',
-                  'Per-operation inductive ingredients of the table invariant (count = number of valid entries, unique key, all-complete flag = for-all) decided by abstract '
-                  'interpretation of the real API on a fully symbolic 16-entry table with every loop summarised by one symbolic index: exact count deltas paired with valid '
-                  'flips, lookup-before-insert with identical key, free-slot-only insertion, untouched full table, single invalidation per remove, wipe, recomputation as a '
-                  'for-all, 60 s expiry. The step-by-step equivalence with a dictionary model over arbitrary histories follows by induction and is not itself enumerated; '
-                  'callers outside the parsed units that poke entry->complete directly (Darwin) are not covered.',
-                  'abstract interpretation with symbolic-index loop summaries; pairing / who-may-write rules', exhaustive=False)
 
 
 def check_find(rep, cx, rule):
